@@ -908,7 +908,7 @@ def rule_indices_of_tree(ctx, prog, rule="R20"):
                     feasible = True
                     try:
                         for (_bb, de, val) in decisions:
-                            v = evaluate(resolve_phi(b, de, pinfo.blocks), env, sym)
+                            v = evaluate(resolve_phi(b, de, pinfo.blocks), env, sym, prog)
                             if isinstance(val, tuple) and val[0] == "not":
                                 if v in val[1]:
                                     feasible = False
@@ -932,9 +932,9 @@ def rule_indices_of_tree(ctx, prog, rule="R20"):
                 decisions, rd, asserts, pblocks = taken[0]
                 try:
                     for (_bb, ce, expected) in asserts:
-                        if bool(evaluate(resolve_phi(b, ce, pblocks), env, sym)) != bool(expected):
+                        if bool(evaluate(resolve_phi(b, ce, pblocks), env, sym, prog)) != bool(expected):
                             bad.append("variant=%s idx=%d n=%d: arithmetic assert fails on the taken path" % ("Ok" if variant == 0 else "Err", i, n))
-                    got = evaluate(resolve_phi(b, b.def_expr(0, rd), pblocks), env, sym)
+                    got = evaluate(resolve_phi(b, b.def_expr(0, rd), pblocks), env, sym, prog)
                 except CannotEval as ex:
                     unrec = str(ex)
                     continue
